@@ -180,6 +180,24 @@ def oracle(case):
 				bad.append('a comparison changed an operand: %r -> %r' % (before[0], u.tuple))
 		except Exception as e:
 			bad.append('comparison raised %s' % exc_name(e))
+	if not bad:
+		# the other ways to hand the same text / the same components over: text (str), a bytearray-free copy URI(u), the tuple; a copy is a
+		# value of its own (changing it does not change the original)
+		try:
+			for how, mk in (('URI(str)', lambda: URI(b.decode('ascii'))), ('URI(URI)', lambda: URI(v)), ('URI(tuple)', lambda: URI(v.tuple))):
+				w2 = mk()
+				if w2.tuple != v.tuple or bytes(w2) != b:
+					bad.append('%s gives %r / %r, URI(bytes) gives %r / %r' % (how, w2.tuple, bytes(w2), v.tuple, b))
+					break
+			clone = URI(v)
+			before = (v.tuple, bytes(v))
+			clone.path = u'/changed/in/the/copy'
+			clone.query = ((u'changed', u'1'),)
+			clone.fragment = u'changed'
+			if (v.tuple, bytes(v)) != before:
+				bad.append('changing a copy URI(v) changed v: %r, before %r' % (v.tuple, before[0]))
+		except Exception as e:
+			bad.append('copying the URI raised %s: %s' % (exc_name(e), e))
 	if bad:
 		return {'what': '; '.join(bad)[:600], 'composed': b.decode('latin-1'), 'components': repr(case[1:])[:300], 'finding': fid}
 	return None
